@@ -68,8 +68,8 @@ def _unique_tasks(tasks):
     m = set()
     res = []
     for t in tasks:
-        if t.id not in m:
-            m.add(t.id)
+        if id(t) not in m:
+            m.add(id(t))
             res.append(t)
 
     return res
